@@ -43,4 +43,9 @@ const SIZE_OF_U64: usize = std::mem::size_of::<u64>();
 /// Crossover threshold in bytes for choosing IO vs mmap iteration strategy.
 /// Ranges smaller than this use mmap (zero-copy), larger use buffered IO.
 /// IO is kept for truly massive datasets that may exceed available address space.
+#[cfg(not(feature = "verif"))]
 pub(crate) const MMAP_CROSSOVER_BYTES: usize = 1024 * 1024 * 1024; // 1 GiB
+#[cfg(feature = "verif")]
+pub(crate) const MMAP_CROSSOVER_BYTES: rawdb::verif::Knob<
+    { rawdb::verif::KNOB_MMAP_CROSSOVER_BYTES },
+> = rawdb::verif::Knob;
